@@ -10,7 +10,8 @@ package c17
 //
 // actions (see Model/Handshake.v, "wire interface"):
 //   [1, chain] [2, conn, x] [3, ch, conn] [4, c, chain, [conn]?] [5, order, port, cpport, version, [hops], chid]
-//   [6, ch] [7] [8] [9, c] [10] [11, ch] [12, ch] [13, ch] [14] [15]
+//   [6, ch] [7] [8] [9, c] [10] [11, ch] [12, ch] [13, ch] [14] [15] [16, ch]
+// A successful OnTimeoutPacket is followed by what IBC core does for an ORDERED channel: the channel end is CLOSED.
 
 import (
 	"encoding/json"
@@ -237,7 +238,12 @@ func (d *drv) observe(code, attr int64) common.T {
 		}
 		chs = append(chs, v)
 	}
-	return common.L(code, attr, cons, revs, chs)
+	closed := make([]common.T, 0, d.k.NCH)
+	for ch := int64(0); ch < d.k.NCH; ch++ {
+		c, ok := d.w.Channels[ccvtypes.ProviderPortID+"/"+chanID(ch)]
+		closed = append(closed, common.B(ok && c.State == channeltypes.CLOSED))
+	}
+	return common.L(code, attr, cons, revs, chs, closed)
 }
 
 func (d *drv) initParams(conn []int64) *providertypes.ConsumerInitializationParameters {
@@ -429,6 +435,12 @@ func (d *drv) step(raw json.RawMessage) (common.T, int64, int64) {
 		if code != 0 && code != 100 {
 			code = 15
 		}
+		if tag == 11 && code == 0 {
+			// IBC core (TimeoutExecuted) closes an ORDERED channel once the timeout callback has succeeded
+			if c, ok := w.Channels[ccvtypes.ProviderPortID+"/"+chanID(ch)]; ok {
+				c.State = channeltypes.CLOSED
+			}
+		}
 		return common.L(tag, ch, x), code, grown(before, d.removalCounts())
 	case 13: // slash packet (downtime, unknown validator): the attributed consumer gets a slash ack
 		ch := num(1)
@@ -455,6 +467,12 @@ func (d *drv) step(raw json.RawMessage) (common.T, int64, int64) {
 			return env.Module.OnChanCloseConfirm(ctx, ccvtypes.ProviderPortID, chanID(0))
 		})
 		return common.L(15), classify(r), -1
+	case 16: // world: IBC core closes the channel end (e.g. the counterparty closed it)
+		ch := num(1)
+		if c, ok := w.Channels[ccvtypes.ProviderPortID+"/"+chanID(ch)]; ok {
+			c.State = channeltypes.CLOSED
+		}
+		return common.L(16, ch), 0, -1
 	}
 	panic(fmt.Sprintf("unknown action %d", tag))
 }
